@@ -20,9 +20,9 @@ Print Assumptions C06_frame.
 (* Run level: whatever an earlier run left in the store, any later run over the same graph (bust_cache off; any
    request, oracle, limits, continue flag) submits as a load, does not expand its dependencies, and its outcome
    is the stored value. *)
-Theorem C06_second_run_loads : forall c st rq cnt t v, wf c -> (forall u, In u rq -> u < ntasks c) ->
+Theorem C06_second_run_loads : forall c st rq cnt fails t v, wf c -> (forall u, In u rq -> u < ntasks c) ->
   lookup st t = Some v ->
-  let c2 := with_run c st rq false cnt in
+  let c2 := with_run c st rq false cnt fails in
   use_cache_in c2 (pre c2) t = true /\ pdeps_of c2 t = [] /\ ref c2 t = Some v.
 Proof. exact second_run_loads. Qed.
 Print Assumptions C06_second_run_loads.
